@@ -14,7 +14,7 @@ func init() {
 	register("C13", "Decides structural necessary conditions of 'submission retries follow the server's pacing and stop when they should': "+
 		"(R1) every iteration of the retry loop makes exactly one HTTP POST attempt — a call of PostAndParse, or the request itself when the transport is written out in the loop (then the clauses of R5 are decided on the loop and an unparsable 200 body must take the back-off-and-retry path there) —; the status decision table of the retry loop: 200 ⇒ the loop returns the response and body of that attempt with a nil error; 408 ⇒ another attempt without touching the back-off; 429 and 503 ⇒ back-off then another attempt; every other status (each constant the code compares with, and the default) ⇒ immediate RspError{StatusCode, Body, Err}; "+
 		"(R2) the error edge: context.Canceled / DeadlineExceeded ⇒ immediate return of that error, any other error ⇒ backoff.set(nil) and another attempt; on 429/503 the override handed to backoff.set is nil without Retry-After, seconds×time.Second for an integer, time.Until(date) for an RFC 1123 date, nil when neither parses; every way round the loop passes waitForBackoff(ctx) and its error ends the loop and is returned; "+
-		"(R3) backoff.set: with an override the new not-before instant is now+override unless the existing one is already later (never shortened), without one it is now + 1s·2^(multiplier−1) with the multiplier incremented only below 8 (128 s cap) and read after the increment, and an instant still in the future is left alone; only set/decreaseMultiplier write the shared state and every client gets a fresh zero backoff; "+
+		"(R3) backoff.set, decided on the state it leaves at every return in each case (comparisons read as signs of linear forms over the clock, the stored instant, the override and the multiplier, however they are spelled — After/Before/Compare/Sub/Until/Since, either operand order): with an override the not-before instant becomes now+override unless the existing one is already later (never shortened, never less than Retry-After), without one it becomes now + 1s·2^(multiplier−1) of the multiplier after its step, the multiplier stepped by one only below 8 (at 8: now + 128 s, the cap), and an instant still in the future is left alone; only set/decreaseMultiplier write the shared state and every client gets a fresh zero backoff; "+
 		"(R4) waitForBackoff sleeps time.Until(until() + jitter) with jitter = rand.Intn(maxJitter in ms) milliseconds ≥ 0 (negative ⇒ 0) in a blocking select that also listens on ctx.Done() and returns ctx.Err() from it; maxJitter = 250 ms; "+
 		"(R5) PostAndParse: no nil-error return after any failing step nor when the final request method is not POST; an unparsable 200 body gives RspError with status and body (so the loop's error edge retries it); the nil-error return hands back the response and the body read from it; "+
 		"(R7) LogClient.AddChain/AddPreChain submit through PostAndParseWithRetry with the caller's context and surface its error. "+
@@ -755,129 +755,12 @@ func c13Override(r *Run, v ssa.Value, reach *Reach, want string) (bool, string) 
 
 func c13Set3(r *Run, fn *ssa.Function) {
 	r.Rule("C13.R3")
-	nb := r.StoresTo(fn, "&(p0.notBefore)")
-	mu := r.StoresTo(fn, "&(p0.multiplier)")
-	r.Check("set:stores", len(nb) >= 2 && len(mu) >= 1, r.FnPos(fn), fmt.Sprintf("%d stores to notBefore, %d to multiplier", len(nb), len(mu)))
-	const override = "(time.Time).Add(time.Now(*), *p1)"
-	const expo = "(time.Time).Add(time.Now(*), ((1 << (p0.multiplier - 1)) * 1000000000))"
-	stored := func(sts []*ssa.Store, reach *Reach) []string {
-		var out []string
-		for _, st := range sts {
-			if reach.Has(st) {
-				out = append(out, r.D.DUnder(st.Val, reach))
-			}
-		}
-		return out
-	}
-	all := func(vs []string, pat string) bool {
-		for _, v := range vs {
-			if !glob(pat, v) {
-				return false
-			}
-		}
-		return len(vs) > 0
-	}
-	r.ClassTable(fn, "set", nil,
-		[]RuleAtom{
-			{Name: "pending", OrdA: "p0.notBefore", OrdB: "time.Now()"},
-			{Name: "override", Pat: "nil?p1"},
-			{Name: "later", OrdA: "(time.Time).Add(time.Now(*), *p1)", OrdB: "p0.notBefore"},
-			{Name: "mult", OrdA: "p0.multiplier", OrdB: "8"},
-		},
-		[]string{"pending,no-override", "pending,override-later", "pending,override-not-later", "idle,override", "idle,no-override,below-cap", "idle,no-override,at-cap"},
-		func(val map[string]string) string {
-			switch {
-			case val["pending"] == ">" && val["override"] == "nil":
-				return "pending,no-override"
-			case val["pending"] == ">" && val["later"] == ">":
-				return "pending,override-later"
-			case val["pending"] == ">":
-				return "pending,override-not-later"
-			case val["override"] == "non":
-				return "idle,override"
-			case val["mult"] == "<":
-				return "idle,no-override,below-cap"
-			}
-			return "idle,no-override,at-cap"
-		},
-		func(class string, val map[string]string, reach *Reach) string {
-			n, m := stored(nb, reach), stored(mu, reach)
-			switch class {
-			case "pending,no-override", "pending,override-not-later":
-				if len(n) != 0 {
-					return fmt.Sprintf("a not-before instant still in the future must be kept; stores %v", n)
-				}
-			case "pending,override-later", "idle,override":
-				if !all(n, override) {
-					return fmt.Sprintf("not-before must become now+override; stores %v", n)
-				}
-			case "idle,no-override,below-cap":
-				if !all(n, expo) {
-					return fmt.Sprintf("not-before must become now + 1s·2^(multiplier−1); stores %v", n)
-				}
-				if !all(m, "(1 + p0.multiplier)") {
-					return fmt.Sprintf("multiplier must be incremented below the cap; stores %v", m)
-				}
-			case "idle,no-override,at-cap":
-				if !all(n, expo) {
-					return fmt.Sprintf("not-before must become now + 1s·2^(multiplier−1); stores %v", n)
-				}
-				if len(m) != 0 {
-					return fmt.Sprintf("multiplier must not grow at the cap (8 ⇒ 128 s); stores %v", m)
-				}
-			}
-			return ""
-		})
-	// the multiplier used by the shift is read after the increment
-	shifts := 0
-	eachInstr(fn, func(in ssa.Instruction) {
-		b, ok := in.(*ssa.BinOp)
-		if !ok || b.Op != token.SHL {
-			return
-		}
-		shifts++
-		ld := c13MultiplierLoad(r, b.Y)
-		if ld == nil {
-			r.Fail("set:shift-operand", r.Where(b), "undecided: shift count "+r.D.D(b.Y)+" is not derived from a load of p0.multiplier")
-			return
-		}
-		ok = true
-		for _, st := range mu {
-			if st.Block() == ld.Block() {
-				ok = ok && instrIndexOf(st) < instrIndexOf(ld)
-			} else {
-				ok = ok && !blockReachesBlock(ld.Block(), st.Block())
-			}
-		}
-		r.Check("set:shift-reads-updated-multiplier", ok, r.Where(b), "no store to multiplier can execute after the load that feeds 1<<(multiplier−1)")
-	})
-	r.Check("set:shift", shifts == 1, r.FnPos(fn), fmt.Sprintf("%d shift expressions in set", shifts))
+	// decided on what set leaves behind in each case of the property (rules_t6c13.go): the comparisons
+	// are signs of linear forms over now / not-before / override / multiplier, however they are spelled
+	c13SetFacts(r, fn)
 	if c := r.P.LookupConst("jsonclient.maxMultiplier"); c != nil {
 		r.Check("const:maxMultiplier", c.Val().ExactString() == "8", r.P.Pos(c.Pos()), "maxMultiplier = "+c.Val().ExactString()+" (2^(8−1) s = 128 s cap)")
 	}
-}
-
-func c13MultiplierLoad(r *Run, v ssa.Value) *ssa.UnOp {
-	for i := 0; i < 6 && v != nil; i++ {
-		switch x := v.(type) {
-		case *ssa.BinOp:
-			if _, isC := x.Y.(*ssa.Const); isC {
-				v = x.X
-				continue
-			}
-			return nil
-		case *ssa.Convert:
-			v = x.X
-		case *ssa.UnOp:
-			if x.Op == token.MUL && r.D.D(x.X) == "&(p0.multiplier)" {
-				return x
-			}
-			return nil
-		default:
-			return nil
-		}
-	}
-	return nil
 }
 
 func c13Who(r *Run) {
